@@ -28,11 +28,11 @@ var Specs = map[string]*Spec{}
 // Requires lists, for a property whose statement includes the statements of other properties, those properties: C08 ("the
 // kernel's decisions equal the policy's, for arbitrary arguments, whatever the size") includes the compiler properties; C15
 // names the invalid policies of C07, the kernel's refusal of C09 and "the target observes exactly the policy's decisions"
-// (C08); C18's last clause is the configuration path (C14) plus the allow-list semantics (C01).  A tree on which a required
+// (C08) - the policy being the one written in the file, so the configuration path (C14) is included as well; C18's last clause is the configuration path (C14) plus the allow-list semantics (C01).  A tree on which a required
 // property's rules report a violation violates the including property as well, and its check says so (rule `requires`).
 var Requires = map[string][]string{
 	"C08": {"C01", "C02", "C03", "C04", "C05", "C06"},
-	"C15": {"C07", "C09", "C08"},
+	"C15": {"C07", "C09", "C08", "C14"},
 	"C18": {"C14", "C01"},
 }
 
